@@ -116,12 +116,26 @@ PROPERTIES = {
                 "histories on the REAL fileConn (scripted file), the REAL udpTxRx (scripted packet conns under its two "
                 "ipv4.PacketConn for deadlines/Close incl. faults, Close twice, operations after Close; real loopback UDP "
                 "sockets for Read/Write) and the REAL dialCtx (scripted provider x ctx timing, explicit synchronisation), "
-                "and the extracted model recomputes every operation: calls seen, n, data, error structure.",
+                "and the extracted model recomputes every operation: calls seen, n, data, error structure. "
+                "THE EMULATED BUS (Socketcan/Emulator.v, theorems C07_emu_*): emulator.go has no fan-out code of its own - every "
+                "endpoint is a udpTxRx on one multicast group, the kernel queues a datagram at every member socket - so the bus "
+                "is modelled as a list of endpoints with the datagrams handed to each; proved for every connect / disconnect / "
+                "transmit history: an endpoint holds exactly the frames transmitted while it was open (its own included), once "
+                "each, in history order (C07_emu_delivery), per-sender order is preserved (C07_emu_per_sender_order), and a "
+                "Receiver on an endpoint returns exactly the valid frames transmitted to it - transmit through the emulator "
+                "then receive is the identity (C07_emu_end_to_end, with C06_roundtrip and C07_any_segmentation). E lines: "
+                "seeded histories on the REAL Emulator (Emulator.Receiver(), Dial(\"udp\", Addr()) endpoints with a Receiver "
+                "and a Transmitter, Emulator.TransmitFrame, TransmitFrame on endpoints - also closed ones -, Close) over real "
+                "loopback multicast; what every endpoint's Receiver returned over the whole history is compared with the model.",
         "note": _NOTE + "Glue model boundary: ipv4.PacketConn (x/net) between udpTxRx and the sockets is not modelled; it "
                         "forwards Close and the deadline setters to the net.PacketConn it embeds (that field is replaced by a "
                         "scripted one through reflect/unsafe in the harness) but does not hand ReadFrom/WriteTo to a non-UDP "
                         "conn, so Read/Write of udpTxRx are observed on real loopback sockets only (no read/write faults there); "
-                        "multicast options, udpTransceiver, dialRaw are outside. Through fileConn a wrapped io.EOF is no longer "
+                        "multicast options, udpTransceiver, dialRaw are outside. Emulator model boundary: the kernel's multicast fan-out "
+                        "(every member socket gets each datagram once, in order, no loss for these small histories) is an "
+                        "ASSUMPTION of Emulator.v observed by the E lines, not code of the repository; Run's sender counting / "
+                        "WaitForSenders, logging and contexts are not modelled; the E lines need a multicast-capable loopback "
+                        "(skipped with a message on stderr otherwise; kinds E-* in the coverage show what ran). Through fileConn a wrapped io.EOF is no longer "
                         "recognised by bufio.Scanner: Receiver.Err() is non-nil at end of stream (C07_glue_receiver_stream). "
                         "bufio.Scanner is modelled, not verified (oracle, DESIGN.md section 3): buffer shifting/doubling is "
                         "abstracted as re-segmentation of reads, a reader violating 0 <= n <= len(p) is not modelled. "
@@ -199,7 +213,8 @@ RULES = {
            "kinds under 0..3 wrappers PathError/SyscallError/OpError/%w, wrappers around nil, (n>0, err)); UD fake = 4000 "
            "histories of deadline/Close operations on the real udpTxRx over scripted packet conns, UD real = 150 Read/Write "
            "histories on loopback sockets; DC = 4 scenarios x cancel/deadline x nil/conn/typed-nil x with/without error, 4 "
-           "times (x10 in the thorough tier); kinds FC*, UD-*, DC-* in the coverage. "
+           "times (x10 in the thorough tier); kinds FC*, UD-*, DC-* in the coverage. E lines = 80 histories (1000 thorough) of 4..11 operations on up to 4 endpoints "
+           "of one real Emulator each (kinds E-<k>transmits). "
            "non-trivial = at least one complete frame or a non-nil terminating error; distinct by line hash",
 }
 
